@@ -210,9 +210,10 @@ fn as_index_range(pos_range: &PosRange, text: &str) -> TextRange {
 pub fn get_insertion_index(position: &Position, text: &str) -> usize {
     let mut line = 0;
     let mut character = 0;
-    let pos = (position.line, position.character);
     for (i, c) in text.char_indices() {
-        if (line, character) == pos {
+        // Either the column is reached or the line ends in front of it:
+        // a column behind the end of a line denotes the end of that line.
+        if line == position.line && (character >= position.character || c == '\n') {
             return i;
         }
         if c == '\n' {
